@@ -13,6 +13,7 @@
   with any calls of any thread in between.
 -/
 import LccModel.Lemmas.SessionSteps
+import LccModel.Lemmas.SessionApi
 
 namespace LccModel.C07
 open LccModel.Report LccModel.Session
@@ -214,5 +215,75 @@ example : (match runOps St.init [(1, .startTest ["s", "t"] default), (1, .setSte
       (1, .attachBegin "f" "d" false), (1, .setStep "b"), (1, .attachEnd), (1, .endTest ["s", "t"])] with
     | .ok s => (accepts false (proj 1 s.fired), s.fired.length)
     | .error _ => (none, 0)) = (some false, 8) := by decide
+
+/-! ## the calls as WRITTEN (API layer M3a, `Model/SessionApi.lean`): `with lcc.detached_step(d):`, `lcc.end_step(step)`
+
+  `lcc.detached_step(d)` (deprecated since 1.4.5, still public) is a context manager that "only does a set_step":
+  entering it is `set_step(d)`, leaving it does nothing — the step stays the current step of the thread and whatever
+  the thread logs after the block lands in it.  A call sequence is LOWERED to the core op sequence it stands for
+  (`SessionApi.lowerAll`); the bracketing theorems above, stated for every op sequence, therefore hold for every call
+  sequence with such blocks, nested, in any thread, around any calls. -/
+
+open LccModel.SessionApi
+
+/-- **`calls_steps_bracketed_per_thread`** — `steps_bracketed_per_thread` for every sequence of API calls (core ops,
+    `detached_step` blocks, the deprecated `end_step`, attachments the file system refuses) whose lowering follows the
+    runner's protocol: per emitting thread the fired stream is a word of the bracket language, every log inside the step
+    open for its thread. -/
+theorem calls_steps_bracketed_per_thread (cs : List (Nat × Call)) (s : St) (hf : Follows St.init (lowerAll St.init cs))
+    (h : runCalls St.init cs = .ok s) (a : Nat) :
+    accepts false (proj a s.fired) = some (openFired s a) :=
+  steps_bracketed_per_thread _ s hf (by rw [← runCalls_eq_runOps]; exact h) a
+
+/-- entering `with lcc.detached_step(d):` IS `set_step(d)` -/
+theorem detached_enter_is_set_step (s : St) (t : Nat) (d : String) :
+    stepCall s t (.detachedEnter d) = step s t (.setStep d) := stepCall_single s t _ _ rfl
+
+/-- **`detached_exit_does_nothing`** — leaving the block (and the deprecated `lcc.end_step(step)`) changes NOTHING: no
+    event, no cursor, in particular the current step of the thread stays current. -/
+theorem detached_exit_does_nothing (s : St) (t : Nat) :
+    stepCall s t .detachedExit = .ok s ∧ stepCall s t .endStepDeprecated = .ok s := ⟨rfl, rfl⟩
+
+/-- **`record_after_detached_block_is_in_its_step`** — after `with lcc.detached_step(d): <nothing that changes the step>`
+    the thread's current step is `d`, so a record the thread emits right after the block follows the protocol (`okOp`: it
+    has a current step — the hypothesis of the bracketing theorem) and carries step `d`. -/
+theorem record_after_detached_block_is_in_its_step {s s1 s2 : St} {t : Nat} {d : String}
+    (h1 : stepCall s t (.detachedEnter d) = .ok s1) (h2 : stepCall s1 t .detachedExit = .ok s2) :
+    s2 = s1 ∧ (∃ c, getCursor s2 t = some c ∧ c.step = some d) ∧
+      ∀ l m, okOp s2 t (.log l m) = true := by
+  have e2 : s2 = s1 := by
+    have := (detached_exit_does_nothing s1 t).1
+    rw [this] at h2; injection h2 with h2; exact h2.symm
+  subst e2
+  rw [detached_enter_is_set_step] at h1
+  simp only [step, withCursor] at h1
+  cases hc : getCursor s t with
+  | none => rw [hc] at h1; cases h1
+  | some c =>
+    rw [hc] at h1
+    simp only [Except.ok.injEq] at h1
+    have hcur : ∃ c', getCursor s2 t = some c' ∧ c'.step = some d := by
+      rw [← h1, getCursor_setCursor]; simp
+    refine ⟨rfl, hcur, ?_⟩
+    intro l m
+    obtain ⟨c', hc', hs'⟩ := hcur
+    simp [okOp, hc', hs']
+
+/-- **What "it only does a set_step" is for** (refutation of the variant in which leaving the block ends the step,
+    `SessionApi.lowerClosing`): `with detached_step("d"): pass` followed by a log — the log is fired outside any step, the
+    stream of the thread is NOT a word of the bracket language. -/
+theorem detached_exit_ending_the_step_breaks_bracketing :
+    ∃ cs s, runCallsWith lowerClosing St.init cs = .ok s ∧ accepts false (proj 1 s.fired) = none :=
+  ⟨[(1, .op (.startTest ["s", "t"] default)), (1, .detachedEnter "d"), (1, .detachedExit), (1, .op (.log .info "after"))],
+   _, rfl, by decide⟩
+
+/-- non-vacuity: the same calls (and more: a block inside a block, a step set inside, an `lcc.Thread`) on the model of the
+    code as it is — accepted, the log after the block is in step "d" -/
+example : (match runCalls St.init [(1, .op (.startTest ["s", "t"] default)), (1, .detachedEnter "d"), (1, .detachedExit),
+      (1, .op (.log .info "after")), (1, .detachedEnter "e"), (1, .detachedEnter "e2"), (1, .op (.setStep "inner")), (1, .detachedExit),
+      (1, .op (.check "c" true none)), (1, .detachedExit), (1, .endStepDeprecated), (1, .op (.url "u" "d")),
+      (1, .op (.endTest ["s", "t"]))] with
+    | .ok s => (accepts false (proj 1 s.fired), (proj 1 s.fired).length, s.fired.length)
+    | .error _ => (none, 0, 0)) = (some false, 7, 9) := by decide
 
 end LccModel.C07
